@@ -1,5 +1,6 @@
 import SV.Wire
 import SV.Model.Plan
+import SV.Model.Stateful
 open SV SV.Wire SV.Model.Engine SV.Model.Plan
 
 def decStatus : Json → Except String Status
@@ -110,8 +111,47 @@ def encPEv : PEv → Json
   | .interrupted => jobj [("k", .str "Interrupted")]
   | .engineFinished => jobj [("k", .str "EngineFinished")]
 
+open SV.Model.Stateful in
+def decSEv (j : Json) : Except String SEv := do
+  match ← asStr (← field j "k") with
+  | "suiteStarted" => return .suiteStarted (← asNat (j.getD "n" (jnat 0)))
+  | "suiteFinished" => return .suiteFinished (← asNat (j.getD "n" (jnat 0))) (← decStatus (← field j "st"))
+  | "scenStarted" => return .scenStarted (← asNat (← field j "id"))
+  | "scenFinished" => return .scenFinished (← asNat (← field j "id")) (← decStatus (← field j "st"))
+  | "nonFatal" => return .nonFatal
+  | "interrupted" => return .interrupted
+  | k => .error s!"bad stateful event {k}"
+
+open SV.Model.Stateful in
+def encSEv : SEv → Json
+  | .suiteStarted n => jobj [("k", .str "suiteStarted"), ("n", jnat n)]
+  | .suiteFinished n st => jobj [("k", .str "suiteFinished"), ("n", jnat n), ("st", encStatus st)]
+  | .scenStarted i => jobj [("k", .str "scenStarted"), ("id", jnat i)]
+  | .scenFinished i st => jobj [("k", .str "scenFinished"), ("id", jnat i), ("st", encStatus st)]
+  | .nonFatal => jobj [("k", .str "nonFatal")]
+  | .interrupted => jobj [("k", .str "interrupted")]
+  | .phaseFinished st ntt => jobj [("k", .str "phaseFinished"), ("st", encStatus st), ("ntt", .bool ntt)]
+
+open SV.Model.Stateful in
+def decEnding : Json → Except String RunEnd
+  | .str "ok" => pure .ok | .str "keyboardInterrupt" => pure .keyboardInterrupt | .str "skipTest" => pure .skipTest
+  | .str "failureGroup" => pure .failureGroup | .str "flaky" => pure .flaky
+  | .str "unsatisfiableRetry" => pure .unsatisfiableRetry | .str "unsatisfiableGiveUp" => pure .unsatisfiableGiveUp
+  | .str "otherException" => pure .otherException
+  | _ => .error "bad ending"
+
 def handle : Handler := fun op a => do
   match op with
+  | "stateful_thread" =>
+    let suites ← (← asArr (← field a "suites")).mapM fun s => do
+      return (⟨← asList decSEv (← field s "scen"), ← decEnding (← field s "ending"),
+              ← asBool (s.getD "interruptedAtStart" (.bool false)), ← asBool (s.getD "limitReached" (.bool false))⟩ :
+              SV.Model.Stateful.Suite)
+    return .arr ((SV.Model.Stateful.threadEvents 0 suites).map encSEv)
+  | "stateful_consume" =>
+    let gets ← asList decSEv (← field a "gets")
+    let c := SV.Model.Stateful.consume gets (← asBool (← field a "ki"))
+    return .arr (c.out.map encSEv)
   | "consumer" =>
     let v ← decVariant (← field a "variant")
     let mf ← asOpt asNat (optField a "maxFailures")
